@@ -20,6 +20,7 @@ class LThread(object):
         self.done = False
         self.wake_at = None  # virtual time, when sleeping
         self.join_target = None
+        self.join_timed = False  # join(timeout): also runnable once the virtual clock reaches wake_at
         self.real = None
         self.error = None
 
@@ -56,7 +57,10 @@ class Sched(object):
             if t.done:
                 continue
             if t.join_target is not None:
-                if not t.join_target.done:
+                if t.join_target.done:
+                    if t.join_timed:
+                        t.wake_at = None  # the target ended before the timeout: the joiner continues at once
+                elif not t.join_timed:
                     continue
             out.append(t)
         return out
@@ -209,8 +213,14 @@ class FakeThread(object):
             self._s.point("thread.join")
             return
         me.join_target = self._lt
+        if timeout is not None:
+            # a bounded join: like a sleeper, the joiner can be resumed when the clock reaches its deadline
+            me.join_timed = True
+            me.wake_at = self._s.now + max(timeout, 0)
         self._s.point("thread.join")
         me.join_target = None
+        me.join_timed = False
+        me.wake_at = None
 
     def is_alive(self):
         return self._lt is not None and not self._lt.done
